@@ -753,19 +753,7 @@ fn drive_gff(b: &mut dyn BufRead, variant: Variant, deep: bool) -> Vec<String> {
         Variant::Eager => {
             for res in r.line_bufs() {
                 match res {
-                    Ok(line) => {
-                        let mut w = gff::io::Writer::new(Vec::new());
-                        let s = match w.write_line(&line) {
-                            Ok(()) => render::text(w.into_inner()),
-                            Err(e) => render::err_str(&e),
-                        };
-                        let k = match &line {
-                            gff::LineBuf::Directive(_) => "directive",
-                            gff::LineBuf::Comment(_) => "comment",
-                            gff::LineBuf::Record(_) => "record",
-                        };
-                        t.push(format!("R:{k}:{s}\u{1f}{line:?}"));
-                    }
+                    Ok(line) => t.push(render::gff_line_buf(&line)),
                     Err(e) => return t.err(&e),
                 }
             }
@@ -776,36 +764,7 @@ fn drive_gff(b: &mut dyn BufRead, variant: Variant, deep: bool) -> Vec<String> {
             loop {
                 match r.read_line(&mut line) {
                     Ok(0) => return t.end(),
-                    Ok(_) => {
-                        let raw: &bstr::BStr = line.as_ref();
-                        match line.kind() {
-                            gff::line::Kind::Directive => {
-                                let d = line.as_directive();
-                                t.push(format!(
-                                    "R:directive:{}\u{1f}{:?}",
-                                    esc(raw),
-                                    d.map(|d| (esc(d.key()), d.value().map(|v| esc(v))))
-                                ));
-                            }
-                            gff::line::Kind::Comment => {
-                                t.push(format!("R:comment:{}\u{1f}{:?}", esc(raw), line.as_comment().map(|c| esc(c))));
-                            }
-                            gff::line::Kind::Record => match line.as_record() {
-                                Some(Ok(rec)) => {
-                                    t.push(format!("R:record:{}\u{1f}{}", render::gff_feature(&rec), esc(raw)));
-                                    if deep {
-                                        use std::fmt::Write as _;
-                                        let mut d = Deep::default();
-                                        render::deep_feature(&mut d, &rec);
-                                        let _ = write!(d.digest, "dbg={rec:?};");
-                                        t.deep(d);
-                                    }
-                                }
-                                Some(Err(e)) => t.push(format!("R:record:{}\u{1f}{}", render::err_str(&e), esc(raw))),
-                                None => t.push(format!("R:record:<none>\u{1f}{}", esc(raw))),
-                            },
-                        }
-                    }
+                    Ok(_) => render::gff_line(&line, deep, &mut t.out),
                     Err(e) => return t.err(&e),
                 }
             }
@@ -820,18 +779,7 @@ fn drive_gtf(b: &mut dyn BufRead, variant: Variant, deep: bool) -> Vec<String> {
         Variant::Eager => {
             for res in r.line_bufs() {
                 match res {
-                    Ok(line) => {
-                        let mut w = gtf::io::Writer::new(Vec::new());
-                        let s = match w.write_line(&line) {
-                            Ok(()) => render::text(w.into_inner()),
-                            Err(e) => render::err_str(&e),
-                        };
-                        let k = match &line {
-                            gtf::LineBuf::Comment(_) => "comment",
-                            gtf::LineBuf::Record(_) => "record",
-                        };
-                        t.push(format!("R:{k}:{s}\u{1f}{line:?}"));
-                    }
+                    Ok(line) => t.push(render::gtf_line_buf(&line)),
                     Err(e) => return t.err(&e),
                 }
             }
@@ -842,27 +790,7 @@ fn drive_gtf(b: &mut dyn BufRead, variant: Variant, deep: bool) -> Vec<String> {
             loop {
                 match r.read_line(&mut line) {
                     Ok(0) => return t.end(),
-                    Ok(_) => {
-                        let raw: &bstr::BStr = line.as_ref();
-                        if let Some(c) = line.as_comment() {
-                            t.push(format!("R:comment:{}\u{1f}{}", esc(raw), esc(c)));
-                        } else {
-                            match line.as_record() {
-                                Some(Ok(rec)) => {
-                                    t.push(format!("R:record:{}\u{1f}{}", render::gtf_feature(&rec), esc(raw)));
-                                    if deep {
-                                        use std::fmt::Write as _;
-                                        let mut d = Deep::default();
-                                        render::deep_feature(&mut d, &rec);
-                                        let _ = write!(d.digest, "dbg={rec:?};");
-                                        t.deep(d);
-                                    }
-                                }
-                                Some(Err(e)) => t.push(format!("R:record:{}\u{1f}{}", render::err_str(&e), esc(raw))),
-                                None => t.push(format!("R:record:<none>\u{1f}{}", esc(raw))),
-                            }
-                        }
-                    }
+                    Ok(_) => render::gtf_line(&line, deep, &mut t.out),
                     Err(e) => return t.err(&e),
                 }
             }
